@@ -5,7 +5,7 @@ from crosshair.core import NoTracing
 
 import stix2
 from stix2 import markings
-from stix2.exceptions import InvalidSelectorError, InvalidValueError, STIXError
+from stix2.exceptions import InvalidSelectorError, InvalidValueError, MarkingNotFoundError, STIXError
 from stix2.markings import utils as mu
 
 from engine.hlib import Native, V, pick
@@ -39,6 +39,20 @@ def sel_validate(v1: int, b: bool, s: str) -> bool:
         ok = False
     V.reached()
     return ok == (s in paths)
+
+
+def sel_sorted(b: bool, v: int, s: str) -> bool:
+    """
+    pre: len(s) <= 8
+    post: _
+    """
+    # list indices >= 10 and keys where '-' / '.' ordering differs from component order
+    obj = {"lst": [b, v, 2, 3, 4, 5, 6, 7, 8, 9, v], "d": {"sha": {"v": b}, "sha-1": v}}
+    paths = {"lst", "lst.[0]", "lst.[1]", "lst.[2]", "lst.[3]", "lst.[4]", "lst.[5]", "lst.[6]", "lst.[7]", "lst.[8]", "lst.[9]", "lst.[10]",
+             "d", "d.sha", "d.sha.v", "d.sha-1"}
+    got = bool(mu._validate_selector(obj, s))
+    V.reached()
+    return got == (s in paths)
 
 
 # ---- real objects with embedded objects / extensions; selector from an independently enumerated path set plus near misses
@@ -115,6 +129,23 @@ def run_object_case(oi, si):
             got = False
         if got != want:
             return False
+    # 2b. every marking function validates the selector, on an unmarked object and on a marked one
+    if oi != 1:
+        marked = markings.add_markings(obj, M1, [PATHS[oi][0]])
+        for target in (obj, marked):
+            for fn in (lambda o: markings.get_markings(o, [sel]), lambda o: markings.get_markings(o, sel, inherited=True, descendants=True),
+                       lambda o: markings.is_marked(o, M1, [sel]), lambda o: markings.is_marked(o, selectors=[sel]),
+                       lambda o: markings.set_markings(o, M1, [sel]), lambda o: markings.remove_markings(o, M1, [sel]),
+                       lambda o: markings.clear_markings(o, [sel])):
+                try:
+                    fn(target)
+                    got = True
+                except (InvalidSelectorError, InvalidValueError):
+                    got = False
+                except MarkingNotFoundError:
+                    got = True            # the selector was accepted; there was just nothing to remove
+                if got != want:
+                    return False
     # 3. construction / parse of an object that carries the selector (only syntactically legal selectors can get that far)
     if oi != 1:
         d = dict(JS[oi])
